@@ -153,6 +153,8 @@ def resolve_arg(v, model):
         return np.arange(n, dtype=float)
     if v == "@attr":
         return "w"
+    if v == "@perm":
+        return list(range(n))[::-1]
     raise KeyError(v)
 
 
